@@ -28,6 +28,10 @@ Exp(ev) ==
             IF ~d.called THEN [calls |-> 0, name |-> <<>>, argvs |-> <<>>, argvs_after |-> <<>>, in_name |-> <<>>, in_argvs |-> <<>>, hret |-> -99]
             ELSE [calls |-> IF d2.called THEN 2 ELSE 1, name |-> d.name, argvs |-> toks, argvs_after |-> toks,
                   in_name |-> d2.name, in_argvs |-> IF d2.called THEN [k \in 1..r2.argc |-> Token(a, r2.starts[k])] ELSE <<>>, hret |-> 7]
+     \* a caller walks a text line by line (strtok with "\n", as a script loop does) and hands every line to the dispatcher: every line is
+     \* dispatched, in order - the dispatcher keeps no state of its own and disturbs none of its caller's
+     [] ev.fn \in {"mshell_script", "mshell_tables_script", "rshell_script", "rshell_tables_script"} ->
+            LET ls == Split(s, {10}) IN [lines |-> ls, names |-> [k \in 1..Len(ls) |-> Dispatch(ls[k], Names, 10).name]]
      [] ev.fn = "path_next" -> LET r == PathNext(s) IN [off |-> r.off, len |-> r.len]
      [] ev.fn = "path_iterate" -> [off |-> PathIterate(s)]
      [] ev.fn = "compare_node" -> [ret |-> CompareNode(s, a)]
